@@ -12,6 +12,7 @@ Definition c10_upd := Container.CUpd.
 Definition c10_empty := Container.EMPTY.
 Definition c10_owner_of := Container.owner_of.
 Definition c10_odd := Container.odd.
+Definition c10_orph (l : Container.clst) : list N := Container.orph l.
 Definition c10_prog_len (l : Container.clst) : nat := length (Container.prog l).
 Definition c10_pc_tag (l : Container.clst) : N :=
   match Container.pc l with
@@ -24,4 +25,4 @@ Definition c10_pc_tag (l : Container.clst) : N :=
   | RecCasGen _ _ _ _ => 29 | RecEnd _ => 30 | RecIncChange _ _ => 31
   | UpdDist0 => 32 | UpdLoadGen _ => 33 | UpdDist1 _ _ => 34 | UpdCopy _ _ => 35 | UpdValidate _ _ => 36
   end.
-Extraction "../ocaml/c10/model.ml" c10_step1 c10_init c10_final c10_add c10_rem c10_rec c10_upd c10_empty c10_owner_of c10_odd c10_prog_len c10_pc_tag N.of_nat N.to_nat.
+Extraction "../ocaml/c10/model.ml" c10_step1 c10_init c10_final c10_add c10_rem c10_rec c10_upd c10_orph c10_empty c10_owner_of c10_odd c10_prog_len c10_pc_tag N.of_nat N.to_nat.
